@@ -545,6 +545,7 @@ def handle (st : DState) (line : String) : DState × String :=
   | "bufr" :: _ => (st, "any")   -- racy start (accept right after Start): judged by the harness oracle only
   | "disk" :: rest => handleDisk st rest
   | "reload" :: rest => (st, handleReload rest)
+  | "agent" :: "script" :: _ => (st, "any")
   | ["redact", h] =>
     match unhex h with
     | none => (st, "bad-op")
